@@ -97,4 +97,12 @@ META = {
         note="Attribution: allocations made by the thread inside a library call and outside harness/user scopes; reallocations/deallocations are attributed by block identity.",
         technique="allocator event log (side table keyed by pointer) checked online after every operation",
     ),
+    "C06": dict(
+        text="Fault enumeration at run time: for every operation instance of the element/range/clone/lazy families from every state up to the bound, each user-code invocation inside the operation (element Drop, element Clone, replacement-iterator next) "
+             "is made to panic in turn (k = 1..N, N measured on a fault-free run), and every splice is also run with replacement iterators misreporting len() by -2..=+2; after each fault the registry, canaries, guard scans and a follow-up usage sequence decide. "
+             "fault_enumeration: complete over the enumerated crash points within the bound, not over unbounded histories.",
+        design_ref="DESIGN.md 3/C06, 1.6",
+        note="One injected panic per execution; operations that the property expects to panic anyway are not combined with an injected fault (a second panic while unwinding aborts by language rule). Leaks are permitted and only counted.",
+        technique="fault injection at every user-code call site (counted then enumerated) + registry/canary/guard monitors + continued differential use",
+    ),
 }
